@@ -124,7 +124,8 @@ def eof_fields_recorded(ctx: Ctx, ev: Evidence, dst) -> list[Finding]:
         if not acks:
             continue
         stores = [x for x in e.ev if x.kind == "store"]
-        entry = next((x.func.split(".")[-1] for x in stores if x.name.endswith(".file_size_eof")), acks[0].func.split(".")[-1])
+        # grouped by what the handler knew when the EOF arrived, named without private identifiers
+        entry = "before the Metadata PDU" if dst.h.wget(e.pre, "_params.acked_params.metadata_missing") is True or state_of(dst, e.pre) == "IDLE" else "after the Metadata PDU"
         g = groups.setdefault(entry, {"ok": 0, "bad": 0})
         if any(x.name.endswith("." + fld) for x in stores):
             g["ok"] += 1
@@ -135,10 +136,10 @@ def eof_fields_recorded(ctx: Ctx, ev: Evidence, dst) -> list[Finding]:
         raise AnalysisError("no EOF-acknowledging edge in the destination ATS")
     for entry, g in sorted(groups.items()):
         ok = g["bad"] == 0
-        ev.inst("C03-R1d", f"EOF accepted through {entry}: field `{fld}` stored on {g['ok']} edges, not stored on {g['bad']}", "ok" if ok else "violation")
+        ev.inst("C03-R1d", f"EOF accepted {entry}: field `{fld}` stored on {g['ok']} edges, not stored on {g['bad']}", "ok" if ok else "violation")
         if not ok:
             out.append(Finding("C03-R1d", f"dest handler | EOF accepted without recording its checksum | {entry}",
-                               f"an EOF PDU accepted through {entry} is acknowledged but its checksum is not stored in `{fld}`: the completion check after the recovery compares against the initial value and can never succeed", "", witness_of(dst, wit[entry])))
+                               f"an EOF PDU accepted {entry} is acknowledged but its checksum is not stored in `{fld}`: the completion check after the recovery compares against the initial value and can never succeed", "", witness_of(dst, wit[entry])))
     return out
 
 
